@@ -148,8 +148,11 @@ Definition opt_eqb (a : option N) (r : N) : bool :=
   match a with Some x => x =? r | None => false end.
 
 (* Query::read_record_buf / read_next_container: ALL index entries are walked in order (no
-   interval pruning); entries of other references are skipped; the whole container at the
-   entry's offset is decoded and filtered.  A seek that does not land on a container ends the
+   interval pruning); entries of other references are skipped; the container at the entry's
+   offset is read and its slice at the entry's landmark is decoded and filtered -- with ONE
+   slice per container, as here, that is the whole container (the selection by landmark and its
+   InvalidData case are modelled by NV.CramIdx.Multi.query_m; under file_ok every entry carries
+   the landmark of its container's only slice).  A seek that does not land on a container ends the
    iteration (read_container -> 0). *)
 Fixpoint query_gen (sel : N -> N -> N -> rec -> bool) (es : list entry) (f : list container)
          (r lo hi : N) : list rec :=
